@@ -50,6 +50,8 @@ where
     }
 
     pub(crate) async fn run(mut self) {
+        #[cfg(feature = "pearl_verif")]
+        let _verif_worker = self.inner.verif.worker_guard();
         loop {
             if self.index_dump_task.as_ref().map_or(false, |task| task.is_finished()) {
                 // Complete task if it is already finished
@@ -88,7 +90,11 @@ where
     async fn tick(&mut self) -> Result<TickResult> {
         match self.receiver.recv().await {
             Some(msg) => {
+                #[cfg(feature = "pearl_verif")]
+                self.inner.verif.on_received();
                 self.process_msg(msg).await?;
+                #[cfg(feature = "pearl_verif")]
+                self.inner.verif.on_processed(self.deferred_index_dump_info.is_some(), true);
                 Ok(TickResult::Continue)
             },
             None => Ok(TickResult::Stop)
@@ -100,7 +106,11 @@ where
         let deadline = deadline + DEFERRED_PROCESS_DEADLINE_EPS;
         match timeout_at(deadline, self.receiver.recv()).await {
             Ok(Some(msg)) => {
+                #[cfg(feature = "pearl_verif")]
+                self.inner.verif.on_received();
                 self.process_msg(msg).await?;
+                #[cfg(feature = "pearl_verif")]
+                self.inner.verif.on_processed(self.deferred_index_dump_info.is_some(), true);
                 Ok(TickResult::Continue)
             },
             Ok(None) => {
@@ -110,6 +120,8 @@ where
                 // Deadline reached
                 self.next_deadline = None; // Reset deadline
                 self.process_defered().await?;
+                #[cfg(feature = "pearl_verif")]
+                self.inner.verif.on_processed(self.deferred_index_dump_info.is_some(), false);
                 Ok(TickResult::Continue)
             }
         }
@@ -227,7 +239,11 @@ where
         complete_task(&mut self.index_dump_task, "index_dump_task").await;
 
         let inner = self.inner.clone();
+        #[cfg(feature = "pearl_verif")]
+        let verif_task = inner.verif.task_guard();
         let task = tokio::spawn(async move {
+            #[cfg(feature = "pearl_verif")]
+            let _verif_task = verif_task;
             inner.try_dump_old_blob_indexes().await
         });
 
@@ -245,7 +261,11 @@ where
 
 
         let inner = self.inner.clone();
+        #[cfg(feature = "pearl_verif")]
+        let verif_task = inner.verif.task_guard();
         let task = tokio::spawn(async move {
+            #[cfg(feature = "pearl_verif")]
+            let _verif_task = verif_task;
             if let Err(e) = inner.fsyncdata().await {
                 error!("failed to fsync data in {:?}: {:?}", inner.config().work_dir(), e);
             }
@@ -286,7 +306,11 @@ where
             };
         }
 
+        #[cfg(feature = "pearl_verif")]
+        let verif_wait = self.inner.verif.wait_write_guard();
         let mut write = self.inner.safe().write().await;
+        #[cfg(feature = "pearl_verif")]
+        drop(verif_wait);
         let mut replace = false;
         {
             if let Some(active_blob) = write.read_active_blob().await {
